@@ -378,8 +378,8 @@ def _about_a_model_object(e) -> bool:
     if not isinstance(e, (AttributeError, TypeError)):
         return False
     obj = getattr(e, "obj", None)
-    if obj is not None and (type(obj).__module__ or "").split(".")[0] in ("vfw", "props"):
-        return True
+    if obj is not None and ((type(obj).__module__ or "").split(".")[0] in ("vfw", "props") or isinstance(obj, types.SimpleNamespace)):
+        return True          # (library stand-ins are SimpleNamespace objects or classes of props/*.py; the repository itself uses neither)
     names = set()
     for mn, m in list(sys.modules.items()):
         if mn.split(".")[0] in ("vfw", "props") and m is not None:
